@@ -224,6 +224,18 @@ def r22_6(ctx, rep):
                "the symbols to substitute are narrowed by looking at %s only" % ("the delayed expressions" if ".expr" in v else "something else than the delay arguments"))
 
 
+@SPEC.rule(
+    "R22.7",
+    "the cached model's delay durations are decoded with the table they were encoded with: every list of all model symbols in save_model and "
+    "load_model (the one whose positions are stored as duration dependencies, and the ones the functions are called with) has the categories in "
+    "the order of the residual functions' signature — time, states, derivatives, algebraic variables, inputs, constants, parameters",
+)
+def r22_7(ctx, rep):
+    from ..engine import run_as
+    from .c19 import r19_4
+    run_as(r19_4, "R22.7", ctx, rep)
+
+
 # -- seeded variants ---------------------------------------------------------
 from ._mut import delete_stmt_where, replace_in_func  # noqa: E402
 
